@@ -61,10 +61,14 @@ def optHex : Option BL → String
   | some b => toHexList b
   | none => "X"
 
-def nameCmd (e : Encoding) (value : Str) (hasBlock : Bool) (legacy0 : Str) : String :=
-  -- hasBlock = false: a record read from an old file (no unicode block), legacy name `legacy0`, written as is
+def nameCmd (e : Encoding) (value : Str) (mode : String) (legacy0 : Str) : String :=
+  -- "set": the name setter; "new": Group.new(value); "frompil": PixelLayer.frompil(.., value);
+  -- anything else ("old"): a record read from an old file (no unicode block), legacy name `legacy0`, written as is
+  let mac := charmap Generated.Strings.macRomanTable
   let r1 : Except Err NameRec :=
-    if hasBlock then setName (charmap Generated.Strings.macRomanTable) value ⟨legacy0, none⟩
+    if mode == "set" then setName mac value ⟨legacy0, none⟩
+    else if mode == "new" then .ok (newGroupName value)
+    else if mode == "frompil" then frompilName mac value
     else .ok ⟨legacy0, none⟩
   match r1 with
   | .error er => "err\tset:" ++ er.name
@@ -101,7 +105,7 @@ def cmds : List (String × Cmd) := [
     | _ => badRequest),
   ("uni.name", fun
     | enc :: mode :: cps :: leg :: rest => match codecOf enc rest.head?, parseNats cps, parseNats leg with
-      | some e, some s, some l => nameCmd e s (mode == "set") l
+      | some e, some s, some l => nameCmd e s mode l
       | _, _, _ => badRequest
     | _ => badRequest),
   ("uni.codec", fun
